@@ -11,7 +11,7 @@ use serde_json::{json, Value};
 pub const DEF: PropDef = PropDef {
     id: "C07",
     level: "exploration",
-    rule: "complete enumeration of: all strings <=4 over {a,b,é,comma,space,😀} x all delimiters <=2 over the same alphabet (plus none); all arrays of <=3 strings from a 4-string set with a non-string at each position, dictionary-only and empty arrays x 5 delimiters; all numeral strings <=3 (thorough <=4) over {0 1 9 a f F z - + . e space} x 25 radices; 33 boundary code points; 20 rounding boundaries x 4 direction spellings x 2 word orders; every wrong operand kind of U; each operation in up to 8 operand/destination forms (in place on variable / pronoun; into variable / subscript / pronoun from variable / pronoun / subscript / literal); after each operation the result AND the operand are observed element by element; expected from naive reference algorithms; non-trivial = judged; distinct = distinct program text",
+    rule: "complete enumeration of: all strings <=4 over {a,b,é,comma,space,😀} x all delimiters <=2 over the same alphabet (plus none); all arrays of <=3 strings from a 4-string set with a non-string at each position, dictionary-only and empty arrays x 5 delimiters; all numeral strings <=3 (thorough <=4) over {0 1 9 a f F z - + . e space} x 35 radices; 33 boundary code points; 20 rounding boundaries x 4 direction spellings x 2 word orders; every wrong operand kind of U; each operation in up to 8 operand/destination forms (in place on variable / pronoun; into variable / subscript / pronoun from variable / pronoun / subscript / literal); after each operation the result AND the operand are observed element by element; expected from naive reference algorithms; non-trivial = judged; distinct = distinct program text",
     assumptions: &["reference algorithms in refmodel/value.rs (left-to-right non-overlapping split, hand-written radix parser, char::from_u32, ceil/floor/half-up)", "negative rounding ties, exotic numerals (inf/nan/padded) are skipped as unspecified"],
     build,
     exhaustive: true,
@@ -101,7 +101,7 @@ pub struct C07 {
 const SPLIT_SYMS: &[&str] = &["a", "b", "é", ",", " ", "😀"];
 const JOIN_STRS: &[&str] = &["", "a", "b,", "é"];
 const NUMERAL_SYMS: &[&str] = &["0", "1", "9", "a", "f", "F", "z", "-", "+", ".", "e", " "];
-const RADICES: &[&str] = &["", " with 2", " with 3", " with 8", " with 10", " with 16", " with 35", " with 36", " with 2.0", " with 16 plus 0", " with \"16\"", " with true", " with mysterious", " with 65536", " with 4294967298", " with 0", " with 1", " with 37", " with -1", " with 2.5", " with 1e30", " with 0 over 0", " with \"x\"", " with null"];
+const RADICES: &[&str] = &["", " with 2", " with 3", " with 8", " with 10", " with 16", " with 35", " with 36", " with 2.0", " with 16 plus 0", " with \"16\"", " with true", " with mysterious", " with 65536", " with 4294967298", " with 0", " with 1", " with 37", " with -1", " with 2.5", " with 1e30", " with 0 over 0", " with \"x\"", " with null", " with 258", " with 272", " with 65552", " with 4294967312", " with -16", " with -2", " with 16.9", " with 15.999999999999998", " with 1 over 0", " with 9223372036854775808"];
 const CODEPOINTS: &[&str] = &["0", "65", "127", "128", "233", "255", "256", "2047", "2048", "55295", "55296", "56000", "57343", "57344", "65535", "65536", "128512", "1114111", "1114112", "2147483648", "4294967296", "4294967361", "-4294967231", "9223372036854775808", "-1", "-65", "1.5", "65.5", "0 over 0", "1 over 0", "-1 over 0", "1e30", "0 times -1"];
 const ROUND_VALUES: &[&str] = &["0", "0 times -1", "0.4", "-0.4", "0.5", "-0.5", "1.5", "2.5", "-2.5", "2.6", "-2.6", "2251799813685248.5", "4503599627370497", "9007199254740992", "0.49999999999999994", "1000000000000000.5", "1e300", "0 over 0", "1 over 0", "-1 over 0"];
 
